@@ -245,8 +245,8 @@ def run(ctx):
         for (l, k) in plan:
             cases = gen_cases(l, rnd, ctx.quick)
             for (m, t, no_prss) in configs(ctx.quick, ctx.seed):
-                # thorough: complete tables on the first three configurations, samples of 1200 on the others (m up to 7)
-                cap = 700 if ctx.quick else (10 ** 9 if (m, t, no_prss) in configs(False, ctx.seed)[:3] else 1200)
+                # thorough: complete tables on the first three configurations, samples of 800 on the others (m up to 7)
+                cap = 700 if ctx.quick else (10 ** 9 if (m, t, no_prss) in configs(False, ctx.seed)[:3] else 800)
                 sub = rnd.sample(cases, cap) if len(cases) > cap else cases
                 st, results, errors = run_batch(sub, evaluate, m, t, seed=ctx.seed + l, no_prss=no_prss, sec_param=k, ctxarg=l, max_steps=100000000)
                 tag = f'l{l}k{k}m{m}t{t}{"n" if no_prss else "p"}'
